@@ -327,8 +327,13 @@ def classify(p, cfg, go, bash_bits):
             return "language_differs", "star_before_empty_extglob_group"
         if any(bash_patscan(p, g + 1) != go_group_end(p, g + 1) for g in groups):
             return "language_differs", "extglob_group_end_differs_bare_paren_or_open_bracket"
-        if any(p[g] == "!" for g in groups):
-            return "language_differs", "negated_extglob_prefix_suffix_not_plain"
+        negs = [g for g in groups if p[g] == "!"]
+        if cfg == "fold" and len(negs) == 1 and re.search(r"[A-Za-z]", p):
+            return "language_differs", "negated_extglob_ignores_nocase"
+        if len(negs) == 1:
+            e = go_group_end(p, negs[0] + 1)
+            if e is not None and any(c in (p[:negs[0]] + p[e:]) for c in "\\()|"):
+                return "language_differs", "negated_extglob_prefix_suffix_not_plain"
     return "language_differs", None
 
 
@@ -436,6 +441,9 @@ def spec_leg(ctx, spec_cases):
         if fb & 1 and classify(p, "ext", {"bits": ""}, b)[1] == "wildcard_before_unclosed_extglob":
             known += 1
             continue
+        if fb & 1 and re.search(r"\*[@+]\(\)", p):   # bash: * before an empty group matches nothing (KF-C17-9), not transliterated
+            known += 1
+            continue
         if re.search(r"\[[.=]", p):      # collating symbols / equivalence classes are not transliterated in GlobSpec.v
             known += 1
             continue
@@ -446,7 +454,7 @@ def spec_leg(ctx, spec_cases):
 
 WITNESSES = ["\\", "a\\", "[a-", "[[:", "x!(a)*", "**(", "@(()", "!(a)@(b)", "*(a", "[+-\\*]", "*@()",
              "[-*]", "@(a", "[a-\\]]", "a!(b)c", "!(a|b)", "x!(*.c)", "+(a|b)c", "?(a)b", "*(ab|c)", "@(a|b|)", "a[!b-d]?", "[]-a]",
-             "[a\\]b]", "**/a", "a/**", ".[!.]*"]
+             "[a\\]b]", "**/a", "a/**", ".[!.]*", "a!(b)a", "ab!(x)bc"]
 # every character class once, plain and negated, plus an invalid and a collating one (pinned)
 for _k in ("alnum", "alpha", "ascii", "blank", "cntrl", "digit", "graph", "lower", "print", "punct", "space", "upper", "word", "xdigit", "foo"):
     WITNESSES += ["[[:%s:]]" % _k, "x[![:%s:]0]" % _k]
@@ -474,7 +482,7 @@ def run(ctx):
         ctx.broken.append(("harness-run", "c17 enum/tokens failed %s" % (err + err2 + err3)[-600:]))
         return
     allrows = wrows + rows + trows
-    spec_cases, nfail = search(ctx, allrows, 3 if quick else 40)
+    spec_cases, nfail = search(ctx, allrows, 6 if quick else 40)
     ctx.extra["search_patterns"] = len(allrows)
     ctx.extra["search_disagreements_all_classified"] = nfail
     spec_leg(ctx, spec_cases)
